@@ -114,6 +114,14 @@ class Run:
         res = mpi.run(kase, cpu=150, wall=1500)
         self.oc.evals += 1
         fail = res.failure()
+        if fail and fail[0] == "driver-failed":
+            # no crash record, no deadlock message, no budget exceeded: the forked run or the fork server died for a reason that the
+            # program does not explain (seen once under load, not reproducible): once more; twice in a row is not a verdict either
+            res = mpi.run(kase, cpu=150, wall=1500)
+            self.oc.evals += 1
+            fail = res.failure()
+            if fail and fail[0] == "driver-failed":
+                raise core.Inconclusive("mpi_interp failed twice without explanation: rc=%s %s" % (res.rr.rc, res.rr.err[-300:]))
         if fail and fail[0] == "bad-case" and len(where) <= 1:
             raise RuntimeError(fail[1])
         # (in a longer program a "malformed case" exit can also be the symptom of a damaged process: a handle table that lost an
@@ -721,6 +729,7 @@ def selected_algorithms():
 @st.composite
 def cases(draw, tier):
     algos = selected_algorithms()
+    algos = algos + [x for x in algos if x[0] == "nbc"] * 7       # the functions without selector: as often as a collective with 8 algorithms
     c, a = draw(st.sampled_from(algos))
     main = coll.KINDS_OF_COLL.get(c) or coll.KINDS
     n = 30 if tier == "quick" else 120
